@@ -507,6 +507,7 @@ def run_concur(prop, tier, seed, model=True):
         models.append(st)
         unexplained = 0
         only_model = 0
+        drift = []
         for i, (label, areqs) in enumerate(corp):
             obs = observed.get(i, [])
             terms = report.get(i + 1, [])
@@ -526,11 +527,20 @@ def run_concur(prop, tier, seed, model=True):
                        'monitors': 'TxConformance', 'tags': 'race-tagged-' + tagged if tagged else ''}
                 why = ('outcome %s (schedule %s) of race %s is not an outcome of any interleaving of spec/Tx.tla (model outcomes %s)'
                        % (o['statuses'], o['schedule'], label, bad['model_outcomes']))
-                violations.append((bad, why, sig))
+                # The property itself is judged on this execution by TraceSerial.tla (oracle: Apply alone).
+                # That the transaction-structure model no longer explains the code is not a violation
+                # of the property: it voids the model-level result, and is reported as such.
+                drift.append(why)
             if i in complete_idx:
                 only_model += sum(1 for h, sts in terms if not h)
         tx_extra = {'observed_outcomes_not_admitted_by_Tx': unexplained,
+                    'Tx_model_bound_to_the_code': unexplained == 0,
                     'Tx_terminal_states_never_observed_in_exhausted_races': only_model}
+        if drift:
+            print('MODEL-DRIFT property=%s: %d observed outcome(s) are not outcomes of spec/Tx.tla; the exhaustive '
+                  'model-level result does not apply to this tree (the property is decided on the observed '
+                  'interleavings by TraceSerial.tla alone). First: %s' % (prop, len(drift), drift[0][:400]))
+            tx_extra['model_drift_examples'] = drift[:5]
     races_n = sum(r['races'] for r in results)
     cov = {
         'states': sum(m['states'] for m in models),
